@@ -107,6 +107,17 @@ def _attr_stores(cls: ast.ClassDef) -> Dict[str, List[str]]:
     return {k: sorted(v) for k, v in out.items()}
 
 
+def _class_level_attrs(cls: ast.ClassDef) -> List[str]:
+    """private names bound in the class body itself (`_enter_set_value: bool = False`)"""
+    out = set()
+    for st in cls.body:
+        tg = st.targets if isinstance(st, ast.Assign) else ([st.target] if isinstance(st, ast.AnnAssign) else [])
+        for t in tg:
+            if isinstance(t, ast.Name) and _is_private(t.id):
+                out.add(t.id)
+    return sorted(out)
+
+
 def snapshot(trees: Dict[str, ast.AST]) -> dict:
     """trees: module name -> parsed (un-normalised) tree"""
     snap = {"modules": {}, "identifiers": []}
@@ -127,7 +138,8 @@ def snapshot(trees: Dict[str, ast.AST]) -> dict:
         for name, fn in _defs(tree.body).items():
             m["functions"][name] = {"params": params_of(fn), "fp": fingerprint(fn)}
         for cname, cls in _classes(tree.body).items():
-            c = {"methods": {}, "attrs": _attr_stores(cls), "fp": fingerprint(cls), "bases": [ast.unparse(b) for b in cls.bases]}
+            c = {"methods": {}, "attrs": _attr_stores(cls), "fp": fingerprint(cls), "bases": [ast.unparse(b) for b in cls.bases],
+                 "cattrs": _class_level_attrs(cls)}
             for name, fn in _defs(cls.body).items():
                 c["methods"][name] = {"params": params_of(fn), "fp": fingerprint(fn)}
             m["classes"][cname] = c
@@ -178,6 +190,11 @@ class _RenameIdent(ast.NodeTransformer):
     def visit_ClassDef(self, node):
         if not self.attrs_only and node.name in self.m:
             node.name = self.m[node.name]
+        for st in node.body:   # names bound in the class body are attributes of the class
+            tg = st.targets if isinstance(st, ast.Assign) else ([st.target] if isinstance(st, ast.AnnAssign) else [])
+            for t in tg:
+                if isinstance(t, ast.Name) and t.id in self.m:
+                    t.id = self.m[t.id]
         self.generic_visit(node)
         return node
 
@@ -274,6 +291,30 @@ def canonicalise_drift(trees: Dict[str, ast.AST], table: Optional[dict]) -> List
                 if len(cands) == 1:
                     attr_map[cands[0]] = x
                     log.append(f"D2 {mod}.{cname}: private attribute `{cands[0]}` recognised as the snapshot's `{x}` (renamed; stored in {where})")
+    # D2b  private class-level attributes (`_enter_set_value = False` in a base class and its subclasses): the set of classes that bind the
+    # missing name at class level equals the set of classes that bind one unexpected name
+    want: Dict[str, Set[str]] = {}
+    have: Dict[str, Set[str]] = {}
+    for mod, tree in trees.items():
+        ref = table["modules"].get(mod)
+        if ref is None:
+            continue
+        for cname, cls in _classes(tree.body).items():
+            cref = ref["classes"].get(fn_map.get(cname, cname))
+            if cref is None:
+                continue
+            now_c = set(_class_level_attrs(cls))
+            for x in cref.get("cattrs", []):
+                if x not in now_c:
+                    want.setdefault(x, set()).add(f"{mod}.{cname}")
+            for y in now_c:
+                if y not in cref.get("cattrs", []) and y not in known:
+                    have.setdefault(y, set()).add(f"{mod}.{cname}")
+    for x, cs in want.items():
+        cands = [y for y, cy in have.items() if cy == cs and y not in attr_map]
+        if len(cands) == 1:
+            attr_map[cands[0]] = x
+            log.append(f"D2 private class attribute `{cands[0]}` recognised as the snapshot's `{x}` (renamed; bound in {sorted(cs)})")
     if fn_map or attr_map:
         clash = (set(fn_map) & set(attr_map))
         for tree in trees.values():
